@@ -201,6 +201,7 @@ type flJob struct {
 	p1, p1b, p2 func()
 	creates    int
 	frozen     bool
+	freezeSeen bool // the driver emitted FlushFreeze itself (write-vs-flush)
 	committed  bool
 	acks       []flAck
 	// gated mode: a flush and a Close on goroutines of their own
@@ -209,6 +210,7 @@ type flJob struct {
 	gateAt  string // p1 | p2
 	arrived chan struct{}
 	goOn    chan struct{}
+	arrived2, goOn2 chan struct{} // second stop (table file closed); write-vs-flush only
 }
 
 type flCtx struct {
@@ -692,15 +694,20 @@ func (c *flCtx) onCreate() error {
 	if j.mode == "close" {
 		return nil
 	}
-	if j.frozen {
+	if j.frozen && !j.freezeSeen {
 		c.emit("Unexpected", trace.F{"what": "second table file in one flush", "obj": j.o.id})
 		return nil
 	}
-	j.frozen = true
-	if j.retry {
-		c.emit("FlushRetry", trace.F{"obj": j.o.id})
+	if j.freezeSeen {
+		// the driver saw the freeze already (the flush waited for a registered writer before it came here)
+		j.freezeSeen = false
 	} else {
-		c.emit("FlushFreeze", trace.F{"obj": j.o.id})
+		j.frozen = true
+		if j.retry {
+			c.emit("FlushRetry", trace.F{"obj": j.o.id})
+		} else {
+			c.emit("FlushFreeze", trace.F{"obj": j.o.id})
+		}
 	}
 	if j.mode == "gated" {
 		if j.gateAt == "p1" {
@@ -722,6 +729,14 @@ func (c *flCtx) onCreate() error {
 
 func (c *flCtx) onClose() error {
 	j := c.job
+	if j != nil && j.mode == "gated" && j.arrived2 != nil && flGid() != atomic.LoadInt64(&j.gClose) {
+		// write-vs-flush: second stop of the flush, its table file is written and closed
+		a, g := j.arrived2, j.goOn2
+		j.arrived2 = nil
+		close(a)
+		<-g
+		return nil
+	}
 	if j == nil || j.mode != "flush" {
 		return nil
 	}
